@@ -99,3 +99,18 @@ m("c14-copy-content", "C14", "daemon/config/mapping.py", "            plugin_con
 m("c14-keyed-by-section", "C14", "daemon/config/mapping.py", "                content[plugin] = plugin_content", "                content[plugin.section] = plugin_content")
 m("c14-keyerror-again", "C14", "daemon/core/config.py", "            dependencies.setdefault(before, set()).add(plugin.section)", "            dependencies[before].add(plugin.section)")
 m("c14-logging-unknown", "C14", "daemon/config/mapping.py", '        logging_mapping = config_data.pop("logging")', '        logging_mapping = config_data["logging"]')
+# ---- C04
+m("c04-args-before-target", "C04", "interfaces/_partial.py", "return self.ctor(*args, *self.args, **kwargs, **self.kwargs)", "return self.ctor(*self.args, *args, **kwargs, **self.kwargs)")
+m("c04-bind-left-to-right", "C04", "interfaces/_partial.py",
+  "            pool = self.targets[-1] >> other\n            for owner in reversed(self.targets[:-1]):\n                pool = owner >> pool",
+  "            pool = self.targets[0] >> other\n            for owner in self.targets[1:]:\n                pool = owner >> pool")
+m("c04-drop-targets", "C04", "interfaces/_partial.py", "return PartialBind(self, other.parent, *other.targets)", "return PartialBind(self, other.parent, *other.targets[:1])")
+m("c04-call-prepends", "C04", "interfaces/_partial.py", "self.ctor, *self.args, *args, __leaf__=self.leaf, **self.kwargs, **kwargs", "self.ctor, *args, *self.args, __leaf__=self.leaf, **self.kwargs, **kwargs")
+m("c04-bind-not-partial", "C04", "interfaces/_partial.py", "Signature.from_callable(self.ctor).bind_partial(*args, **kwargs)", "Signature.from_callable(self.ctor).bind(*args, **kwargs)")
+m("c04-no-check-on-curry", "C04", "interfaces/_partial.py",
+  "        self.leaf = __leaf__\n        self._check_signature()", "        self.leaf = __leaf__\n        if not args or len(args) < 2:\n            self._check_signature()")
+m("c04-f3a-revert", "C04", "daemon/runners/service.py", "            __new_service__.__signature__ = inspect.signature(", "            __new_service__.__wrapped_signature__ = inspect.signature(")
+m("c04-f3b-revert", "C04", "interfaces/_partial.py", "        if not self.leaf and (\n", "        if (\n")
+m("c04-leaf-template-constructed-twice", "C04", "interfaces/_partial.py",
+  "            if other.leaf:\n                return self >> other.__construct__()", "            if other.leaf:\n                other.__construct__()\n                return self >> other.__construct__()")
+m("c04-deco-s-leaf", "C04", "interfaces/_proxy.py", "return Partial(cls, *args, __leaf__=False, **kwargs)", "return Partial(cls, *args, __leaf__=True, **kwargs)")
